@@ -12,6 +12,16 @@ theorem closeStore_closed (s : Store) (d : Disk) (ft : Fault) (hc : s.closed = t
     closeStore s d ft = ⟨s, d, .ok, [(d, false)], []⟩ := by
   unfold closeStore; simp [hc]
 
+theorem closeOut_committed (c : Bool) (o : Outcome) :
+    (if (c && decide (o = Outcome.ok)) = true then Outcome.errCommitted else o).committed = o.committed := by
+  by_cases h : (c && decide (o = Outcome.ok)) = true
+  · simp only [h, ↓reduceIte]
+    have : o = Outcome.ok := by
+      simp only [Bool.and_eq_true, decide_eq_true_eq] at h
+      exact h.2
+    rw [this]; rfl
+  · simp only [h, Bool.false_eq_true, ↓reduceIte]
+
 /-- `Close` from a state that satisfies the invariant -/
 theorem close_ok {s : Store} {d : Disk} {A C : List Rec} (i : SInv s d A C) (di : DInv d A)
     (hc : s.closed = false) (ft : Fault) :
@@ -23,25 +33,33 @@ theorem close_ok {s : Store} {d : Disk} {A C : List Rec} (i : SInv s d A C) (di 
   have f := flush_ok i di hc ft
   have hcl : (flushLocked s d ft).st.closed = false := by rw [f.closed]; exact hc
   have sf := f.sfin hcl
+  -- the directory with a torn EOF trailer on the log being closed
+  have dtr : DInv (match (flushLocked s d ft).st.writer with
+      | some n => (flushLocked s d ft).disk.setGarbage n true
+      | none => (flushLocked s d ft).disk)
+      (if (flushLocked s d ft).out.committed = true then A ++ C else A) := by
+    cases hw : (flushLocked s d ft).st.writer with
+    | none => exact f.dfin
+    | some n =>
+      simp only
+      obtain ⟨pre, F, hf, hn⟩ := sf.wr n hw
+      subst hn
+      have hr := sf.wrr (by simp [hw])
+      have hz := sf.wrz (by simp [hw])
+      have hclean := sf.nogarb hr
+      exact f.dfin.torn pre F hf (fun G hG => hclean G (by rw [hf]; exact List.mem_append_left _ hG)) hz
   unfold closeStore
-  simp only [hc, Bool.false_eq_true, ↓reduceIte]
-  refine ⟨?_, f.dfin, f.rem, trivial⟩
-  intro b hb
-  rcases List.mem_append.mp hb with h | h
-  · exact f.bases b h
-  · simp only [List.mem_cons, List.not_mem_nil, or_false] at h
-    rcases h with rfl | rfl
-    · simp only
-      cases hw : (flushLocked s d ft).st.writer with
-      | none => exact f.dfin
-      | some n =>
-        simp only
-        obtain ⟨pre, F, hf, hn⟩ := sf.wr n hw
-        subst hn
-        have hr := sf.wrr (by simp [hw])
-        have hz := sf.wrz (by simp [hw])
-        have hclean := sf.nogarb hr
-        exact f.dfin.torn pre F hf (fun G hG => hclean G (by rw [hf]; exact List.mem_append_left _ hG)) hz
+  simp only [hc, Bool.false_eq_true, ↓reduceIte, closeOut_committed]
+  refine ⟨?_, ?_, f.rem, trivial⟩
+  · intro b hb
+    rcases List.mem_append.mp hb with h | h
+    · exact f.bases b h
+    · simp only [List.mem_cons, List.not_mem_nil, or_false] at h
+      rcases h with rfl | rfl
+      · exact dtr
+      · exact f.dfin
+  · split
+    · exact dtr
     · exact f.dfin
 
 theorem inv_init : Inv Sys.init := by
